@@ -6,7 +6,9 @@ import (
 	"fmt"
 	"math/rand/v2"
 	"os"
+	"os/exec"
 	"path/filepath"
+	"sort"
 	"strconv"
 	"strings"
 	"time"
@@ -107,4 +109,11 @@ func ndjsonString(evs []map[string]any) string {
 func mustMkdir(p string) string {
 	_ = os.MkdirAll(p, 0755)
 	return p
+}
+
+func sortStrings(s []string) { sort.Strings(s) }
+
+func execOutput(name string, args ...string) (string, error) {
+	out, err := exec.Command(name, args...).CombinedOutput()
+	return string(out), err
 }
